@@ -287,6 +287,20 @@ bool ops_module(Ctx &c, Toks const &t, std::string const &rest)
     cvm::clear_error();
     return true;
   }
+  if (op == "o.delvar" || op == "o.delbias") {   // delete an object by script and list what is left (names, module order)
+    std::vector<std::string> args = {"cv", op == "o.delvar" ? "colvar" : "bias", t[1], "delete"};
+    std::vector<unsigned char *> argv;
+    for (auto &a : args) argv.push_back((unsigned char *) a.c_str());
+    cvm::clear_error();
+    run_colvarscript_command((int) argv.size(), argv.data());
+    cvm::clear_error();
+    std::string s;
+    for (size_t i = 0; i < p->colvars->variables()->size(); i++) s += (i ? "," : "") + (*p->colvars->variables())[i]->name;
+    s += "|";
+    for (size_t i = 0; i < p->colvars->biases.size(); i++) s += (i ? "," : "") + p->colvars->biases[i]->name;
+    c.out("objs", stok(s));
+    return true;
+  }
   if (op == "s.table") {
     int const n = cvscript_n_commands();
     char const **names = cvscript_command_names();
